@@ -66,6 +66,19 @@ def run_case(rng, idx, tier):
         rec.update(events=ev, viol=viol, worst=worst)
         return rec
     ev["queries"] += 1
+    # history clause: what a query returned must not be changed by later queries (no shared result buffers)
+    if idx % 4 == 0 and res[1] is not None:
+        snap = [np.array(x, dtype=float) for x in res[1:4]]
+        try:
+            fn(pb, pa)
+            fn(*pairs.build_pair(*pairs.make_pair(rng)[:2]))
+        except Exception:  # noqa: BLE001
+            pass
+        ev["aliasing_checks"] = 1
+        for nm, x, y in zip(("closest_point1", "closest_point2", "simplex"), res[1:4], snap):
+            if not np.array_equal(np.asarray(x, float), y, equal_nan=True):
+                viol.append({"key": {"kind": "result-mutated-by-later-query", "what": nm}, "err": None,
+                             "msg": "%s: the returned %s changed after later queries (shared buffer?)" % (fname, nm)})
     ev["support_calls"] += pa.n + (0 if pb is pa else pb.n)
     worst["support_calls"] = pa.n + (0 if pb is pa else pb.n)
     d, a, b = res[0], res[1], res[2]
